@@ -15,7 +15,8 @@ def Settled (P : Params) (t : Tree) (s : BSt) (x : Label) (m : Res) : Prop :=
     (semRec (s.w.recs x)).rerun = false ∧ m.data = stampOf P (semRec (s.w.recs x)) ∧
     upToDate P s.w d (semRec (s.w.recs x)) = true ∧
     (∀ y ∈ depsOf t x d, ∃ my, s.memo y = some my ∧ my.ok = true ∧ (semRec (s.w.recs x)).deps.lookup y = some my.data) ∧
-    (!P.depCount || (semRec (s.w.recs x)).deps.length == (depsOf t x d).length) = true
+    (!P.depCount || (semRec (s.w.recs x)).deps.length == (depsOf t x d).length) = true ∧
+    attrsOK P d (semRec (s.w.recs x)) = true
 
 def SInv (P : Params) (t : Tree) (s : BSt) : Prop := ∀ x m, s.memo x = some m → m.ok = true → Settled P t s x m
 
@@ -195,10 +196,10 @@ theorem settled_frame {P : Params} {S : Shape} {t : Tree} {o : Opts} {s : BSt} {
     (ord : Order t s l) (hl : (t.defs l).isSome) {x : Label} {m : Res} (hx : s.memo x = some m) (hok : m.ok = true)
     (h : Settled P t s x m) : Settled P t (visit P t o s l) x m := by
   have hxl : x ≠ l := by intro e; subst e; rw [ord.fresh] at hx; cases hx
-  obtain ⟨dx, hdx, h1, h2, h3, h4, h5⟩ := h
+  obtain ⟨dx, hdx, h1, h2, h3, h4, h5, h6⟩ := h
   obtain ⟨f1, f2⟩ := visit_frame hc P o s l
   obtain ⟨res, hmemo⟩ := visit_memo P t o s l
-  refine ⟨dx, hdx, ?_, ?_, ?_, ?_, ?_⟩
+  refine ⟨dx, hdx, ?_, ?_, ?_, ?_, ?_, by rw [f1 x hxl]; exact h6⟩
   · rw [f1 x hxl]; exact h1
   · rw [f1 x hxl]; exact h2
   · rw [f1 x hxl, upToDate_frame hc P hdx hxl hl (ord.above x m dx hx hok hdx) f2]; exact h3
@@ -229,7 +230,7 @@ theorem visit_settled {P : Params} {S : Shape} {t : Tree} {o : Opts} {s : BSt} {
         have hsem : info = semRec (s.w.recs x) := by
           rw [hinfo]; exact loadedInfo_rerun_false (hinfo ▸ hrr)
         refine ⟨d, hd, by rw [hw, ← hsem]; exact hrr, by rw [hw, ← hsem], by rw [hw, ← hsem]; exact hup, ?_,
-          by rw [hw, ← hsem]; exact plan_skip_length hp⟩
+          by rw [hw, ← hsem]; exact plan_skip_length hp, by rw [hw, ← hsem]; exact plan_skip_attrs hp⟩
         intro y hy
         obtain ⟨my, a, b, _, c⟩ := hdeps y hy
         exact ⟨my, by rw [hmemo]; exact memo_fresh_mono ord.fresh a, b, by rw [hw, ← hsem]; exact c⟩
@@ -248,7 +249,7 @@ theorem visit_settled {P : Params} {S : Shape} {t : Tree} {o : Opts} {s : BSt} {
           obtain ⟨he, hwa⟩ := applySteps_exec_src P t o s.w x d info dd hk
           rw [hwa] at hw
           rw [hmemo, he] at hx; simp at hx; subst hx
-          refine ⟨d, hd, ?_, ?_, ?_, ?_, ?_⟩ <;> rw [hw] <;> simp [semRec, upToDate, hk]
+          refine ⟨d, hd, ?_, ?_, ?_, ?_, ?_, ?_⟩ <;> rw [hw] <;> simp [semRec, upToDate, hk, attrsOK]
           · exact hdeps
           · exact Or.inr hlen
         | fn =>
@@ -260,7 +261,7 @@ theorem visit_settled {P : Params} {S : Shape} {t : Tree} {o : Opts} {s : BSt} {
             obtain ⟨he, hwa⟩ := applySteps_exec_fn_ok P t o s.w x d info dd hk hf
             rw [hwa] at hw
             rw [hmemo, he] at hx; simp at hx; subst hx
-            refine ⟨d, hd, ?_, ?_, ?_, ?_, ?_⟩
+            refine ⟨d, hd, ?_, ?_, ?_, ?_, ?_, by rw [hw]; simp [semRec, attrsOK]⟩
             · rw [hw]; simp [semRec]
             · rw [hw]; simp [semRec]
             · rw [hw]
@@ -280,9 +281,9 @@ theorem visit_settled {P : Params} {S : Shape} {t : Tree} {o : Opts} {s : BSt} {
     cases hd : t.defs l with
     | none =>
       -- nothing changes but the memo
-      obtain ⟨dx, hdx, h1, h2, h3, h4, h5⟩ := si x m hx hok
+      obtain ⟨dx, hdx, h1, h2, h3, h4, h5, h6⟩ := si x m hx hok
       have hw : (visit P t o s l).w = s.w := by simp [visit, hd]
-      refine ⟨dx, hdx, by rw [hw]; exact h1, by rw [hw]; exact h2, by rw [hw]; exact h3, ?_, by rw [hw]; exact h5⟩
+      refine ⟨dx, hdx, by rw [hw]; exact h1, by rw [hw]; exact h2, by rw [hw]; exact h3, ?_, by rw [hw]; exact h5, by rw [hw]; exact h6⟩
       intro y hy
       obtain ⟨my, a, b, c⟩ := h4 y hy
       exact ⟨my, by rw [hmemo]; exact memo_fresh_mono ord.fresh a, b, by rw [hw]; exact c⟩
@@ -308,6 +309,7 @@ theorem plan_skip_of {P : Params} {t : Tree} {o : Opts} {s : BSt} {l : Label} {d
     (hdeps : ∀ y ∈ depsOf t l d, ∃ m, s.memo y = some m ∧ m.ok = true ∧ m.changed = false ∧
       (loadedInfo s.w l d).deps.lookup y = some m.data)
     (hlen : (!P.depCount || (loadedInfo s.w l d).deps.length == (depsOf t l d).length) = true)
+    (hattrs : attrsOK P d (loadedInfo s.w l d) = true)
     (hup : upToDate P s.w d (loadedInfo s.w l d) = true) (hrr : (loadedInfo s.w l d).rerun = false) :
     plan P t o s l d = .skip (loadedInfo s.w l d) := by
   unfold plan
@@ -324,7 +326,7 @@ theorem plan_skip_of {P : Params} {t : Tree} {o : Opts} {s : BSt} {l : Label} {d
       exfalso
       apply hcond
       simp only [Bool.and_eq_true, Bool.not_eq_eq_eq_not, Bool.not_true]
-      refine ⟨⟨⟨hal, ?_, hlen⟩, hup⟩, hrr⟩
+      refine ⟨⟨⟨hal, ⟨?_, hlen⟩, hattrs⟩, hup⟩, hrr⟩
       apply List.all_eq_true.mpr
       intro y hy
       obtain ⟨m, hm, _, hch, hl⟩ := hdeps y hy
@@ -356,7 +358,7 @@ theorem rebuild_quiet {P : Params} {t : Tree} {o2 : Opts} (hna : NoAlways t) (ha
   | cons x rest ih =>
     intro seen s hok hseen hdf q
     obtain ⟨mx, hmx, hmxok⟩ := hok x List.mem_cons_self
-    obtain ⟨d, hd, hrr, _, hup, hdeps, hlen⟩ := si x mx hmx hmxok
+    obtain ⟨d, hd, hrr, _, hup, hdeps, hlen, hattrs⟩ := si x mx hmx hmxok
     have hinfo : loadedInfo s.w x d = semRec (s1.w.recs x) := by
       rw [loadedInfo_noAlways (hna x d hd)]; exact q.recs x
     have hplan : plan P t o2 s x d = .skip (semRec (s1.w.recs x)) := by
@@ -369,6 +371,7 @@ theorem rebuild_quiet {P : Params} {t : Tree} {o2 : Opts} (hna : NoAlways t) (ha
         refine ⟨_, q.memo y hys, rfl, rfl, ?_⟩
         rw [hinfo, hl, hdata]
       · rw [hinfo]; exact hlen
+      · rw [hinfo]; exact hattrs
       · rw [hinfo, upToDate_congr P d _ q.files]; exact hup
       · rw [hinfo]; exact hrr
     have hv : visit P t o2 s x = { s with memo := upd s.memo x (some ⟨true, false, stampOf P (semRec (s1.w.recs x)), false⟩),
